@@ -5,7 +5,7 @@ import glob, os, subprocess, sys, tempfile, shutil, json
 from concurrent.futures import ThreadPoolExecutor
 
 def one(path):
-    tag = "/".join(path.split("/")[-2:])
+    tag = "/".join(path.rstrip("/").split("/")[-2:])
     patch = os.path.join(path, "patch.diff")
     if os.path.exists(os.path.join(path, "patch_rebased.diff")):
         patch = os.path.join(path, "patch_rebased.diff")      # rebased by hand onto later fix commits
